@@ -330,6 +330,19 @@ func entries() []entry {
 				llmnr.DecodeDomainName(in[1:], int(in[0])%(len(in)))
 			}
 		}, Seeds: llmnrSeeds},
+		// the name at the 16-bit offset given by the last two input bytes (names far into a packet: the
+		// end of a long chain of backward pointers)
+		{Name: "llmnr.DecodeDomainName@tail", Call: func(in []byte) {
+			if n := len(in) - 2; n > 0 {
+				llmnr.DecodeDomainName(in[:n:n], int(binary.BigEndian.Uint16(in[n:]))%n)
+			}
+		}, Seeds: func() [][]byte {
+			var out [][]byte
+			for _, sd := range llmnrSeeds() {
+				out = append(out, append(append([]byte{}, sd...), 0, 12))
+			}
+			return out
+		}},
 		{Name: "llmnr.DecodeQuestion", Call: func(in []byte) { llmnr.DecodeQuestion(in, min(12, len(in))) }, Seeds: llmnrSeeds},
 		{Name: "llmnr.DecodeResourceRecord", Call: func(in []byte) { llmnr.DecodeResourceRecord(in, min(12, len(in))) }, Seeds: llmnrSeeds},
 		// NBNS / NBT
